@@ -154,6 +154,10 @@ impl<'a, D> Bfs<'a, D> {
     ///
     /// * `digraph`: The digraph.
     /// * `sources`: The source vertices.
+    ///
+    /// # Panics
+    ///
+    /// Panics if a source vertex isn't in the digraph.
     #[must_use]
     pub fn new<T>(digraph: &'a D, sources: T) -> Self
     where
@@ -166,6 +170,8 @@ impl<'a, D> Bfs<'a, D> {
         let visited_ptr = visited.as_mut_ptr();
 
         for u in sources {
+            assert!(u < order, "u = {u} isn't in the digraph");
+
             queue.push_back(u);
 
             unsafe {
@@ -192,6 +198,8 @@ where
         let visited_ptr = self.visited.as_mut_ptr();
 
         for v in self.digraph.out_neighbors(u) {
+            assert!(v < self.visited.len(), "v = {v} isn't in the digraph");
+
             let visited_v = unsafe { visited_ptr.add(v) };
 
             unsafe {
